@@ -20,6 +20,33 @@ def load_prop(prop_id: str):
     return mod.PROP
 
 
+def _crowd(acc):
+    """The process is not empty: hundreds of the library's objects stay alive for the whole run, thousands more are created
+    and dropped (their ids and hashes get reused by what the checks create later)."""
+    import gc
+
+    try:
+        import aioswitcher.api as api_mod
+        from aioswitcher.bridge import SwitcherBridge
+        from aioswitcher.schedule.parser import SwitcherSchedule
+    except Exception:
+        return []
+    kept = []
+    for n in range(300):
+        kept.append(api_mod.SwitcherType1Api(f"198.51.100.{n % 250 + 1}", f"{n:06x}", f"{n % 256:02x}"))
+        kept.append(api_mod.SwitcherType2Api(f"203.0.113.{n % 250 + 1}", f"{n + 0x100000:06x}", f"{(n * 7) % 256:02x}"))
+        if n % 3 == 0:
+            kept.append(SwitcherBridge((lambda d, n=n: None), [30000 + n]))
+        kept.append(SwitcherSchedule(str(n % 8), False, set(), "13:00", "14:00"))
+    for n in range(3000):
+        api_mod.SwitcherType1Api("192.0.2.77", f"{n:06x}", "00")
+        SwitcherBridge(print, [31000 + n % 500])
+    gc.collect()
+    acc.count("library_objects_kept_alive_during_the_run", len(kept))
+    acc.count("library_objects_created_and_dropped_before_the_run", 6000)
+    return kept
+
+
 async def _run(prop, args, acc, ctx):
     from .monitors import reach
 
@@ -34,6 +61,7 @@ async def _run(prop, args, acc, ctx):
 
             with warnings.catch_warnings():
                 await asyncio.get_running_loop().run_in_executor(None, threadops.run_pairs, acc, pairs, args.shard, args.nshards)
+        crowd = _crowd(acc)      # (after the first-use probes)
         if args.replay:
             cases = [json.load(open(args.replay))["case"]]
         else:
@@ -113,7 +141,17 @@ def main() -> int:
             decimal.DefaultContext.rounding = decimal.ROUND_DOWN
         reach.start(str(env.SRC))
         ctx = {"tier": args.tier, "seed": args.seed, "shard": args.shard, "nshards": args.nshards}
-        reached = asyncio.run(_run(prop, args, acc, ctx))
+        # the asyncio environment is the application's choice: one worker in five runs the loop in debug mode, another with
+        # eager tasks (3.12), the others with the defaults
+        flavour = ("default", "default", "debug", "default", "eager")[args.shard % 5]
+        acc.count(f"event_loop_flavour_{flavour}")
+
+        async def _main():
+            if flavour == "eager" and hasattr(asyncio, "eager_task_factory"):
+                asyncio.get_running_loop().set_task_factory(asyncio.eager_task_factory)
+            return await _run(prop, args, acc, ctx)
+
+        reached = asyncio.run(_main(), debug=(flavour == "debug"))
         reach.stop()
         out["reached"] = reached
         out["ok"] = True
